@@ -2,10 +2,13 @@
   Engine `path` (C18).  Op lines (extra trailing tokens are ignored; they carry what
   only the oracle needs):
     C <mem-hex>                                       collapsePath on that memory block
-    A <tree> <path-hex>                               Ports::apropos
+    A <tree> <path-hex> [E=<ix>|E=?]                  Ports::apropos (`E=?`: the address is not
+                                                      one the property constrains; both sides print
+                                                      `A *` unless an access leaves a string)
     I <tree> <key-hex>                                Ports::operator[]
-    S <tree> <str-hex> <needle-hex|N> <opt 0|1|2> <query 0|1> <max_ports> <bufsize>
-                                                      both path_search overloads
+    S <tree> <str-hex> <needle-hex|N> <opt 0|1|2> <query 0|1> <max_ports> <bufsize> <R|E=<ix>|E=?>
+                                                      both path_search overloads (`E=?` or missing:
+                                                      unconstrained location, both sides print `S *`)
   <tree> ::= '[' [ port { ',' port } ] ']'      port ::= <name-hex> ';' <meta> ';' ( '0' | <tree> )
   <meta> ::= 'N' (NULL) | <block-hex>
   Output lines:
@@ -14,7 +17,7 @@
     S <array overload> | <message overload>
       array overload:   T=<types> A=<args>            | overflow | oob | unsupported
       message overload: M=<len> D=<addr-hex>/<types>/<args> X=<raw-hex or ->   | M=0 | overflow | …
-      <args> = comma separated `s:<hex>`, `b:N` (NULL data), `b:<hex>`; in the two sorted
+      <args> = comma separated `s:<hex>`, `b:<hex>` (`b:-` = empty blob); in the two sorted
       modes the blobs inside a run of equal names are printed in sorted order (std::sort
       is not stable) and the raw bytes only when all names are distinct.
 -/
@@ -106,9 +109,11 @@ def distinctNames (query : Bool) (args : List String) : Bool :=
   let names := (toPairs (splitArgs query args).2).map (·.1)
   names.eraseDups.length == names.length
 
+/-- a blob is printed by its contents; an empty blob as `b:-` whatever its data pointer
+    is (the property does not observe the pointer of a zero-length blob) -/
 def showArg : Arg → String
   | .s v => "s:" ++ toHex v
-  | .b ⟨none, _⟩ => "b:N"
+  | .b ⟨none, len⟩ => if len = 0 then "b:-" else s!"b:NULL+{len}"
   | .b ⟨some d, len⟩ => "b:" ++ toHex (d.take len)
 
 def showDec : Bytes ⊕ Bytes → String
@@ -129,8 +134,15 @@ def parseOpt : String → Option Opts
   | _ => none
 
 def stepS (tree : List PortT) (str : Bytes) (needle : Option Bytes) (opt : Opts) (query : Bool)
-    (maxPorts bufsize : Nat) : String :=
+    (maxPorts bufsize : Nat) (free : Bool) : String :=
   let canon := opt != .unmodified
+  if free then
+    -- the location is not one the property speaks about: only "no access outside" is compared
+    match pathSearchMsg mergeSorter tree str (needle.getD []) maxPorts bufsize opt query with
+    | .overflow => "S overflow"
+    | .oob => "S oob"
+    | _ => "S *"
+  else
   let a := match pathSearch mergeSorter tree str needle (2 * maxPorts + 1) (2 * maxPorts) opt query with
     | .overflow => "overflow"
     | .oob => "oob"
@@ -158,7 +170,12 @@ def step (line : String) : String :=
     | none => "bad-op"
   | "A" :: t :: p :: _ =>
     match parseTree t, ofHex p with
-    | some tree, some path => "A " ++ showLook (apropos tree (trunc path))
+    | some tree, some path =>
+      let r := apropos tree (trunc path)
+      -- `E=?`: not an address the property speaks about (not walked, or the no-prefix
+      -- hypothesis fails): only "no access outside" is compared
+      if (words line).getD 3 "" == "E=?" then (match r with | .oob => "A oob" | _ => "A *")
+      else "A " ++ showLook r
     | _, _ => "bad-op"
   | "I" :: t :: k :: _ =>
     match parseTree t, ofHex k with
@@ -169,7 +186,7 @@ def step (line : String) : String :=
     let needle : Option (Option Bytes) := if n == "N" then some none else (ofHex n).map (some ∘ trunc)
     match parseTree t, ofHex s, needle, parseOpt o, mp.toNat?, bs.toNat? with
     | some tree, some str, some needle, some opt, some maxPorts, some bufsize =>
-      stepS tree (trunc str) needle opt (q == "1") maxPorts bufsize
+      stepS tree (trunc str) needle opt (q == "1") maxPorts bufsize ((words line).getD 8 "E=?" == "E=?")
     | _, _, _, _, _, _ => "bad-op"
   | _ => "bad-op"
 
